@@ -292,6 +292,15 @@ class ValidatedReadBucketProxy(log.PrefixingLogMixin):
             bh = dict(enumerate(blockhashes))
 
             try:
+                # The root of the block hash tree is this share's leaf in
+                # the share hash tree, which get_all_sharehashes() has
+                # validated against the UEB. Pin it first, so that the
+                # hashes the share supplies must chain up to it.
+                share_hash = self.share_hash_tree.get_leaf(self.sharenum)
+                if not share_hash:
+                    raise hashtree.NotEnoughHashesError(
+                        "no validated share hash for share %d" % self.sharenum)
+                self.block_hash_tree.set_hashes({0: share_hash})
                 self.block_hash_tree.set_hashes(bh)
             except IndexError as le:
                 raise BadOrMissingHash(le)
